@@ -40,30 +40,32 @@ def band_any(ctx, X, Y, Yc=None, Xc=None):
             R.band_point(ctx, X, v)
 
 
-def third(kc, variant):
+def third(kc, variant, body_operands=False):
     """a concrete third operand through the region where the C04 operands live"""
     A0 = (F(-1, 2), F(3, 4), F(1, 4))
+    O = B.DEFAULT_ORIGIN if body_operands else (F(0), F(0), F(0))       # follow the default placement of catalogue bodies
+    A0 = R.vadd(A0, O)
     if kc == 'Plane':
         n = [(F(0), F(0), F(1)), (F(1), F(0), F(0)), (F(1), F(1), F(0))][variant % 3]
-        return R.RPlane((F(0), F(0), F(0)) if variant % 2 else A0, n)
+        return R.RPlane(O if variant % 2 else A0, n)
     if kc == 'Line':
         d = [(F(1), F(0), F(0)), (F(0), F(1), F(0)), (F(1), F(1), F(0))][variant % 3]
-        return R.RLine(A0 if variant % 2 == 0 else (F(0), F(0), F(0)), d)
+        return R.RLine(A0 if variant % 2 == 0 else O, d)
     if kc == 'Segment':
         d = [(F(4), F(0), F(0)), (F(0), F(4), F(0)), (F(2), F(2), F(0))][variant % 3]
-        p = A0 if variant % 2 == 0 else (F(0), F(0), F(0))
+        p = A0 if variant % 2 == 0 else O
         return R.RSegment(R.vsub(p, R.vscale(F(1, 2), d)), R.vadd(p, R.vscale(F(1, 2), d)))
     if kc == 'HalfLine':
         d = [(F(1), F(0), F(0)), (F(0), F(-1), F(0)), (F(1), F(1), F(1))][variant % 3]
-        return R.RHalfLine(A0 if variant % 2 == 0 else (F(0), F(0), F(0)), d)
+        return R.RHalfLine(A0 if variant % 2 == 0 else O, d)
     if kc == 'Point':
-        return R.RPoint(A0 if variant % 3 == 0 else (F(0), F(0), F(0)))
+        return R.RPoint(A0 if variant % 3 == 0 else O)
     if kc == 'ConvexPolygon':
-        P = B.polygon('square', 'axis', origin=(-1, -1, 0) if variant % 2 else (-2, 0, F(1, 4)))
+        P = B.polygon('square', 'axis', origin=R.vadd((-1, -1, 0), O) if variant % 2 else R.vadd((-2, 0, F(1, 4)), O))
         r = B.rpoly(P)
         r.concrete = P
         return r
-    K = B.body('cube', 'axis', origin=(-1, -1, -1))
+    K = B.body('cube', 'axis', origin=R.vadd((-1, -1, -1), O))
     r = B.rbody(K)
     r.concrete = K
     return r
@@ -85,7 +87,7 @@ def same_set(r1, r2):
 
 def fam_triple(ctx, ka, kb, kc, variant):
     A, Bq = c04.operands(ctx, ka, kb, variant)
-    C = third(kc, variant)
+    C = third(kc, variant, body_operands=not (ka in FLAT and kb in FLAT))
     if ka in FLAT and kb in FLAT:
         R.band_pair(ctx, A, Bq)
     else:
@@ -93,6 +95,45 @@ def fam_triple(ctx, ka, kb, kc, variant):
     Cc = getattr(C, 'concrete', None)
     band_any(ctx, A, C, Yc=Cc)
     band_any(ctx, Bq, C, Yc=Cc)
+    algebra(ctx, A, Bq, C, Cc)
+
+
+def fam_edge_cut(ctx, shape, fr_name, kc, swap, slide_plane):
+    """a = plane that contains exactly one edge of the body b (no face) and cuts through its interior; c = a line / segment
+    through the body that crosses the cut away from the edge.  Either c slides along its own direction (plane fixed through
+    the edge) or the plane slides along its normal (through the edge at t = 0)."""
+    from . import c02
+    Kc, K, dirs, pts = c02.setup_body(shape, fr_name, None)
+    n0, e = dirs['normal'], dirs['edge']
+    ip = R.cross(n0, e)
+    t = ctx.param('t')
+    for sgn in (1, -1):
+        m = R.vadd(c02._scale_to(n0, F(2)), R.vscale(F(sgn), c02._scale_to(ip, F(1))))
+        side = [R.dot(m, R.vsub(v, pts['edgemid'])) for v in Kc.verts]
+        if any(x > 0 for x in side) and any(x < 0 for x in side):
+            break
+    else:
+        raise AssertionError('no cutting plane through the edge')
+    assert sum(1 for x in side if x == 0) == 2
+    d = R.vadd(m, c02._scale_to(e, F(1)))
+    c0 = R.vadd(Kc.centre, R.vscale(F(1, 8), e))
+    if slide_plane:
+        A = R.RPlane(R.affine(pts['edgemid'], (t, c02._scale_to(m, F(1)))), m)
+    else:
+        A = R.RPlane(pts['edgemid'], m)
+        c0 = R.affine(c0, (t, c02._scale_to(d, F(1))))
+    C = R.RLine(c0, d) if kc == 'Line' else R.RSegment(R.vsub(c0, R.vscale(F(1, 4), d)), R.vadd(c0, R.vscale(F(1, 4), d)))
+    H.VertexOracle(A, K).band(ctx)
+    R.band_pair(ctx, A, C)
+    R.band_flat_body(ctx, C, K, Kc)
+    if swap:
+        algebra(ctx, K, A, C, None)
+    else:
+        algebra(ctx, A, K, C, None)
+
+
+def algebra(ctx, A, Bq, C, Cc):
+    ka, kb, kc = A.kind, Bq.kind, C.kind
     a, b, c = mk(ctx, A), mk(ctx, Bq), mk(ctx, C)
     sig = 'C12:(%s,%s,%s)' % (ka, kb, kc)
     # idempotence
@@ -152,6 +193,13 @@ def families(tier, seed):
             if ka == kb == 'Plane' and v == 1:
                 v = 0
             fams.append(Family('%s-%s-%s/v%d' % (ka, kb, kc, v), fam_triple, (ka, kb, kc, v)))
+    # plane through exactly one edge of a polyhedron, cutting its interior (round-4 seed)
+    rows = [('cube', 'axis', 'Segment', False, False), ('tetra', 'oblique', 'Segment', True, False)]
+    if tier != 'quick':
+        rows += [(s_, f_, 'Segment', sw, sp) for s_ in ('prism', 'pyramid', 'octa') for f_ in ('axis', 'pyth3') for sw, sp in ((False, False), (True, True))]
+    for shape, fr, kc, sw, sp in rows:
+        fams.append(Family('edge-cut/%s@%s/%s/%s/%s' % (shape, fr, kc, 'swap' if sw else 'fwd', 'plane-slides' if sp else 'c-slides'),
+                           fam_edge_cut, (shape, fr, kc, sw, sp)))
     return fams
 
 
